@@ -261,41 +261,60 @@ Print Assumptions C02_chunk_is_slice.
 
 (* ---------------------------------------------------------------------- *)
 (* One Reader object through any sequence of open() / compress_file /
-   decompress_file (either keep_original) / decompress_to_scratch, started on
-   x.bin or x.cbin of a recording with n >= 1 samples, nc >= 1 channels, any
-   compressed size, header and meta file announcing n samples: after every call
-   the object exposes the recording's shape (ns = n), every open() succeeds and
-   installs the raw reader of the file the object currently points at.       *)
+   decompress_file (either keep_original) / decompress_to_scratch (tree at
+   38d7b2f), started on x.bin or x.cbin of a recording with n >= 1 samples,
+   nc >= 1 channels, any compressed size, header and meta file announcing n
+   samples.  After every call:
+   - the object exposes the recording's shape (ns = n);
+   - whenever it points at x.bin its cached nbytes is the size of x.bin (the
+     only place nbytes is read is the x.bin branch of open());
+   - _raw never holds a closed reader;
+   - no size-mismatch warning has been logged.                               *)
 Theorem C02_object_shape_invariant : forall w f ops,
   1 <= w_n w -> 1 <= w_nc w -> w_nch w = w_n w ->
-  Forall (fun x => o_ns (s_obj (fst x)) = w_n w) (r_run w (r_start w f (w_n w)) ops) /\
-  (forall s, o_ns (s_obj s) = w_n w ->
-     snd (r_step w s ROpen) = false /\
-     o_ns (s_obj (fst (r_step w s ROpen))) = w_n w /\
-     o_raw (s_obj (fst (r_step w s ROpen))) =
-       (match o_file (s_obj s) with DBin => RawMemmap | DCbin => RawMtscomp end)).
+  Forall (fun x => let o := s_obj (fst x) in
+            o_ns o = w_n w /\
+            (o_file o = DBin -> o_nbytes o = fsize w DBin) /\
+            o_raw o <> RawClosed /\
+            o_warn o = false)
+         (r_run w (r_start w f (w_n w)) ops).
 Proof.
   intros w f ops Hn Hc Hh.
-  assert (Hw : wgood w) by (repeat split; assumption).
-  split.
-  - apply (r_run_inv w ops _ Hw). reflexivity.
-  - intros s Hs. destruct (r_open_step w s Hw Hs) as [H1 H2].
-    split; [exact H1|split; [exact (r_step_inv w s ROpen Hw Hs)|exact H2]].
+  exact (r_run_inv w ops _ (conj Hn (conj Hc Hh)) (r_start_inv w f)).
 Qed.
 Print Assumptions C02_object_shape_invariant.
 
-(* What goes stale (exact truth about the current code).  nbytes is never
-   refreshed by any call: it stays the size of the file the object was
-   constructed on.  open() on x.bin logs the size-mismatch warning exactly when
-   that cached value differs from 2*n*nc — i.e. spuriously for an object that
-   was constructed on x.cbin and decompressed in place — and recomputes the
-   duration from a fresh stat(), which is why the shape stays right.         *)
-Theorem C02_object_nbytes_never_refreshed : forall w s ops,
-  Forall (fun x => o_nbytes (s_obj (fst x)) = o_nbytes (s_obj s)) (r_run w s ops).
-Proof. intros w s ops. exact (r_run_nbytes w ops s). Qed.
-Print Assumptions C02_object_nbytes_never_refreshed.
+(* In any such state: the only calls that raise are the is_mtscomp guards
+   (compress_file on an object pointing at x.cbin; decompress_file /
+   decompress_to_scratch on one pointing at x.bin); open() installs the reader
+   of the current file; decompress_file(keep_original=False) on an opened
+   object leaves it opened on x.bin (memmap) with the fresh size.            *)
+Theorem C02_object_calls_succeed : forall w s op,
+  1 <= w_n w -> 1 <= w_nc w -> w_nch w = w_n w ->
+  (let o := s_obj s in
+   o_ns o = w_n w /\ (o_file o = DBin -> o_nbytes o = fsize w DBin) /\
+   o_raw o <> RawClosed /\ o_warn o = false) ->
+  (snd (r_step w s op) = true ->
+     (exists k, op = RCompress k /\ o_file (s_obj s) = DCbin) \/
+     (exists k, op = RDecompress k /\ o_file (s_obj s) = DBin) \/
+     (op = RScratch /\ o_file (s_obj s) = DBin)) /\
+  o_raw (s_obj (fst (r_step w s ROpen))) =
+    (match o_file (s_obj s) with DBin => RawMemmap | DCbin => RawMtscomp end) /\
+  (o_file (s_obj s) = DCbin -> o_raw (s_obj s) <> RawNone ->
+     let o' := s_obj (fst (r_step w s (RDecompress false))) in
+     o_file o' = DBin /\ o_raw o' = RawMemmap /\ o_nbytes o' = fsize w DBin).
+Proof.
+  intros w s op Hn Hc Hh HI.
+  assert (Hw : wgood w) by (repeat split; assumption).
+  split; [exact (r_step_noraise w s op Hw HI)|exact (r_reopened w s Hw HI)].
+Qed.
+Print Assumptions C02_object_calls_succeed.
 
-Theorem C02_object_spurious_warning_iff : forall w o,
+(* open() in general (meta file possibly wrong about nothing but the cached
+   size): it warns exactly when the object points at x.bin and the cached
+   nbytes differs from the real size — which, by the invariant above, no
+   sequence of calls of the current code can bring about.                    *)
+Theorem C02_object_warning_iff_stale_size : forall w o,
   1 <= w_n w -> 1 <= w_nc w -> w_nch w = w_n w -> o_ns o = w_n w ->
   exists o', r_open w o = Some o' /\ o_ns o' = w_n w /\
     (o_warn o' = true <-> (o_file o = DBin /\ o_nbytes o <> 2 * w_n w * w_nc w)).
@@ -304,27 +323,23 @@ Proof.
   destruct (r_open_ok w o (conj Hn (conj Hc Hh)) Hs) as [o' [E [H1 [_ [_ [_ H2]]]]]].
   exists o'. auto.
 Qed.
-Print Assumptions C02_object_spurious_warning_iff.
+Print Assumptions C02_object_warning_iff_stale_size.
 
-Example object_stale_nbytes :
-  let tr := r_run w_ex (r_start w_ex DCbin 11) [ROpen; RDecompress false; ROpen] in
-  let o := s_obj (fst (last tr (r_start w_ex DCbin 11, false))) in
-  o_file o = DBin /\ o_nbytes o = 93 /\ fsize w_ex DBin = 66 /\ o_warn o = true /\ o_ns o = 11.
-Proof. exact stale_nbytes_witness. Qed.
-
-(* F-C02-d: "indistinguishable through the reader" fails on the SAME object
-   right after decompress_file(keep_original=False): it points at x.bin, reports
-   is_open, but its raw reader is the closed mtscomp reader (reads raise or come
-   from the chunk cache) until open() is called again. *)
-Theorem C02_object_raw_stale_refuted :
+(* What is still not refreshed: compress_file(keep_original=False) switches
+   file_bin to x.cbin and keeps the size of x.bin in nbytes.  While the object
+   points at x.cbin nothing reads nbytes, and the next in-place decompression
+   refreshes it — so nothing follows for shape, values or warnings; only the
+   public attribute `nbytes` is the size of the wrong file in that state.    *)
+Theorem C02_object_nbytes_stale_on_cbin :
   exists w f ops, 1 <= w_n w /\ 1 <= w_nc w /\ w_nch w = w_n w /\
     let o := s_obj (fst (last (r_run w (r_start w f (w_n w)) ops) (r_start w f (w_n w), false))) in
-    o_file o = DBin /\ o_raw o = RawClosed.
+    o_file o = DCbin /\ o_nbytes o = fsize w DBin /\ o_nbytes o <> fsize w DCbin /\
+    o_raw o = RawMtscomp /\ o_ns o = w_n w /\ o_warn o = false.
 Proof.
-  exists w_ex, DCbin, [ROpen; RDecompress false].
-  cbn zeta. repeat split; try (vm_compute; congruence); apply stale_raw_witness.
+  exists w_ex, DBin, [ROpen; RCompress false; ROpen].
+  cbn zeta. repeat split; try (vm_compute; congruence).
 Qed.
-Print Assumptions C02_object_raw_stale_refuted.
+Print Assumptions C02_object_nbytes_stale_on_cbin.
 
 (* ---------------------------------------------------------------------- *)
 (* The exact truth about what is left of the former findings F-C02-b/c
